@@ -1,6 +1,8 @@
 package sym
 
 import (
+	"math/big"
+	"math/rand"
 	"fmt"
 	"go/constant"
 	"os"
@@ -51,6 +53,9 @@ type Explorer struct {
 	SolverName        string
 	TimeoutMs         int
 	xcheck            string
+	reachBusy            map[string]bool
+	AbsQueries, AbsUnsat int
+	AbsTime              time.Duration
 	PathLimitHit      bool
 	Tier              int
 	Verbose           bool
@@ -96,6 +101,7 @@ func NewExplorer(prog *ssa.Program, cfg Config) *Explorer {
 	ex.vioSeen = map[string]bool{}
 	ex.Status = map[string]int{}
 	ex.Reached = map[string]bool{}
+	ex.reachBusy = map[string]bool{}
 	ex.Asserts = map[string]bool{}
 	ex.Unwinds = map[string]int{}
 	ex.Bounds = map[string]int{}
@@ -170,16 +176,71 @@ func (ex *Explorer) noteInconclusive(s string) {
 func (ex *Explorer) noteReach(in *Interp, id string) {
 	ex.mu.Lock()
 	seen := ex.Reached[id]
-	ex.mu.Unlock()
-	if seen {
+	if seen || ex.reachBusy[id] {
+		ex.mu.Unlock()
 		return
 	}
-	r, _ := in.check(nil, false)
+	// single flight: one worker decides a marker at a time (the query can be
+	// expensive); a failed attempt is retried by a later path
+	ex.reachBusy[id] = true
+	ex.mu.Unlock()
+	defer func() { ex.mu.Lock(); delete(ex.reachBusy, id); ex.mu.Unlock() }()
+	r := Unknown
+	if in.randomWitness(24) {
+		r = Sat
+	} else {
+		r, _ = in.check(nil, false)
+	}
 	if r == Sat {
 		ex.mu.Lock()
 		ex.Reached[id] = true
 		ex.mu.Unlock()
 	}
+}
+
+// randomWitness tries a few concrete assignments of all variables against the
+// path condition (exact evaluation, no solver): a hit is a proof of "sat".
+func (in *Interp) randomWitness(tries int) bool {
+	for _, c := range in.pc {
+		if c.hasUF {
+			return false
+		}
+	}
+	rng := rand.New(rand.NewSource(int64(len(in.pc))*7919 + 1))
+	for k := 0; k < tries; k++ {
+		m := Model{}
+		for _, v := range in.st.Vars {
+			var x *big.Int
+			switch {
+			case k == 0:
+				x = new(big.Int)
+			case v.S.K == KBool:
+				x = big.NewInt(int64(rng.Intn(2)))
+			case v.S.K == KBV:
+				u := rng.Uint64()
+				if k%3 == 1 {
+					u &= 0xff // small values are the common satisfying ones
+				}
+				x = new(big.Int).SetUint64(u & mask(v.S.W))
+			default:
+				x = big.NewInt(int64(rng.Intn(1000)))
+			}
+			m[v.Name] = x
+		}
+		cache := map[int32]evalRes{}
+		ok := true
+		for _, c := range in.pc {
+			r, good := in.st.Eval(c, m, cache)
+			if !good || r.u != 1 {
+				ok = false
+				break
+			}
+		}
+		if ok {
+			return true
+		}
+	}
+	return false
 }
 
 func (ex *Explorer) addViolation(v *Violation) {
@@ -259,6 +320,18 @@ func (ex *Explorer) RunHarness(h *ssa.Function, name string) {
 			}
 			defer func() {
 				s.Close()
+				if in.absSolver != nil {
+					ex.mu.Lock()
+					ex.Queries += in.absSolver.Queries
+					ex.AbsQueries += in.absSolver.Queries
+					ex.AbsTime += in.absSolver.Time
+					ex.AbsUnsat += in.absSolver.NUnsat
+					ex.SolverTime += in.absSolver.Time
+					ex.NSat += in.absSolver.NSat
+					ex.NUnsat += in.absSolver.NUnsat
+					ex.mu.Unlock()
+					in.absSolver.Close()
+				}
 				in.closeFallbacks()
 				if x, ok := xsolvers.Load(in); ok {
 					x.(*Solver).Close()
@@ -351,6 +424,12 @@ func (ex *Explorer) runPath(in *Interp, h *ssa.Function, prefix []int) (status, 
 			switch e := r.(type) {
 			case *pathEnd:
 				status, msg = e.Status, e.Msg
+				if in.abstractArith && (status == "unsupported" || status == "unwound" || status == "bound") {
+					in.abstractArith = false
+					if r, _ := in.check(nil, false); r == Unsat {
+						status, msg = "assume", "path infeasible under exact arithmetic"
+					}
+				}
 			case *goPanicV:
 				// a Go panic escaped the harness: report as a violation (needs a model)
 				func() {
